@@ -331,13 +331,14 @@ void serve_transport(int c, const Endpoint& ep, const Crafted& crafted) {
             const int c = ::accept(fds[k].fd, nullptr, nullptr);
             if (c < 0) continue;
             const auto& ep = eps[owner[k]];
-            const std::uint8_t tag = static_cast<std::uint8_t>(owner[k]);
+            const std::uint8_t tag = static_cast<std::uint8_t>(owner[k] & 0x3f);
             if (log_fd >= 0) { (void)!::write(log_fd, &tag, 1); }
+            const auto t_accept = std::chrono::steady_clock::now();
             try {
                 if (!ping_file.empty()) {
                     (void)read_header(c);
                     // wait (briefly) for the re-executed binary to have written its dump
-                    for (int spin = 0; spin < 150 && !fs::exists(ping_file) && fs::exists(ping_file + ".armed"); ++spin) ::usleep(10000);
+                    for (int spin = 0; spin < 400 && !fs::exists(ping_file) && fs::exists(ping_file + ".armed"); ++spin) ::usleep(10000);
                     if (fs::exists(ping_file)) send_str(c, "STATUS:OK\nCODE:OK_PING\n\n");
                     else { write_file(ping_file + ".armed", "1"); send_str(c, "STATUS:ERROR\nCODE:ERR_NOT_YET\n\n"); }
                 } else if (ep.transport()) {
@@ -349,6 +350,11 @@ void serve_transport(int c, const Endpoint& ep, const Crafted& crafted) {
             }
             ::shutdown(c, SHUT_RDWR);
             ::close(c);
+            // completion record: 0x80|idx when the scripted answer went out well inside the CLI's shortest timeout
+            // (2 s handshake), 0xC0|idx when this process was too slow (loaded machine) -- the parent then repeats the op
+            const auto ms = std::chrono::duration_cast<std::chrono::milliseconds>(std::chrono::steady_clock::now() - t_accept).count();
+            const std::uint8_t done = static_cast<std::uint8_t>((ms < 900 ? 0x80 : 0xC0) | tag);
+            if (log_fd >= 0) { (void)!::write(log_fd, &done, 1); }
         }
     }
 }
@@ -399,7 +405,8 @@ ServerProc spawn_server(std::vector<Endpoint>& eps, const Crafted* crafted, cons
 // ------------------------------------------------------------------------------------------------
 int g_counter = 0;
 
-std::string op_fetch(const std::vector<std::string>& t) {
+std::string op_fetch_once(const std::vector<std::string>& t, bool& timing_suspect) {
+    timing_suspect = false;
     if (t.size() < 3) return "bad-op";
     std::string mode = t[1];
     bool pre = false;
@@ -457,7 +464,17 @@ std::string op_fetch(const std::vector<std::string>& t) {
     server.stop();
     const std::string tags = server.drain();
     std::string tried;
-    for (unsigned char ch : tags) { if (!tried.empty()) tried += ","; tried += std::to_string(static_cast<int>(ch)); }
+    std::set<int> accepted, done_fast;
+    for (unsigned char ch : tags) {
+        if (ch < 0x80) {
+            if (!tried.empty()) tried += ",";
+            tried += std::to_string(static_cast<int>(ch));
+            accepted.insert(ch);
+        } else if (ch < 0xC0) {
+            done_fast.insert(ch & 0x3f);
+        }
+    }
+    for (int idx : accepted) if (!done_fast.contains(idx)) timing_suspect = true;
     std::string file = "-";
     if (fs::exists(out)) {
         const auto content = read_file(out);
@@ -472,6 +489,19 @@ std::string op_fetch(const std::vector<std::string>& t) {
     fs::remove_all(dir, ec);
     if (!thrown.empty()) return thrown;
     return "exit=" + std::to_string(r.code) + " file=" + file + extra + " tried=" + (tried.empty() ? "-" : tried);
+}
+
+// A fake endpoint that could not answer within the CLI's own timeouts (2 s handshake, forked sanitizer process on a
+// loaded machine) makes the CLI give up on an endpoint that was scripted to be honest: repeat such runs.
+std::string op_fetch(const std::vector<std::string>& t) {
+    std::string out;
+    for (int attempt = 0; attempt < 5; ++attempt) {
+        bool suspect = false;
+        out = op_fetch_once(t, suspect);
+        if (!suspect) break;
+        ::usleep(200000);
+    }
+    return out;
 }
 
 // ------------------------------------------------------------------------------------------------
@@ -828,6 +858,12 @@ std::string op_cfg(const std::vector<std::string>& t, bool e2e) {
             thrown = verif::exception_name(ex);
         }
         ::unsetenv("VERIF_CLI_DUMP");
+        // On a loaded machine the re-executed (sanitizer-instrumented) binary can take longer to come up than the
+        // CLI's five-second wait: the launch itself succeeded, so wait for the detached process to write its dump.
+        if (thrown.empty() && !fs::exists(dump_file) && r.err.find('[') == std::string::npos &&
+            r.out.find("already running") == std::string::npos) {
+            for (int spin = 0; spin < 3000 && !fs::exists(dump_file); ++spin) ::usleep(10000);
+        }
         server.stop();
         if (!thrown.empty()) result = thrown;
         else if (r.code != 0 && !fs::exists(dump_file)) {
